@@ -153,8 +153,14 @@ pub fn judge_case(c: &Case) -> Obs {
     // not read ahead on the shared stream) and everything must again equal the plain run.
     if obs.fail.is_none() && c.explicit_quit && resumes == 0 && rr.consumed > 0 && !script.contains('\0') {
         obs.label("script-and-program-input-share-stdin");
-        let mut stdin = script.clone().into_bytes();
-        stdin.push(b'\n');
+        // commands separated by newlines or by `;` - in the latter case the program's input starts
+        // on the very line that `quit;` ends
+        let semi = obs.key % 2 == 0 && !script.contains(';');
+        let mut stdin = if semi { script.replace('\n', ";").into_bytes() } else { script.clone().into_bytes() };
+        stdin.push(if semi { b';' } else { b'\n' });
+        if semi {
+            obs.label("shared-stdin-semicolon-separated");
+        }
         let script_len = stdin.len();
         stdin.extend(&input);
         let s2 = lacebox::run_session(
